@@ -143,7 +143,7 @@ func GenOps(tp *simkern.Tape, c GenCfg) []*Op {
 			}
 			if c.BadCast && op.StreamKind == "exchange" && op.Method != "dyn" && op.Script.Outcome == "ok" && tp.Bool(1, 6) {
 				op.BadCast = true
-				op.BadCastShape = tp.Draw(3)
+				op.BadCastShape = tp.Draw(4)
 				op.Cast = false
 			}
 			if c.WriteAhead && tp.Bool(1, 3) {
